@@ -142,6 +142,7 @@ class Walker(object):
     def __init__(self, cls):
         self.cls = cls
         self.out = []
+        self.closing_vars = set()     # locals holding a reading of self.is_closing
 
     def emit(self, t):
         self.out.append(t)
@@ -171,6 +172,8 @@ class Walker(object):
                 self.emit('TCall KTestOpen')
             elif node.attr == 'is_closed' and dotted(node)[-2] == 'self':
                 self.emit('TCall KTestClosed')
+            elif node.attr == 'is_closing' and dotted(node)[-2] == 'self':
+                self.emit('TCall KTestClosing')
             self.expr(node.value)
             return
         for child in ast.iter_child_nodes(node):
@@ -187,8 +190,15 @@ class Walker(object):
                 return                       # docstring
             self.expr(s.value)
         elif isinstance(s, (ast.Assign, ast.AugAssign, ast.AnnAssign)):
+            n0 = len(self.out)
             self.expr(s.value)
             targets = s.targets if isinstance(s, ast.Assign) else [s.target]
+            if isinstance(s, ast.Assign) and len(targets) == 1 and isinstance(targets[0], ast.Name):
+                # a local that holds exactly a reading of self.is_closing (and is tested later)
+                if isinstance(s.value, ast.Attribute) and self.out[n0:] == ['TCall KTestClosing']:
+                    self.closing_vars.add(targets[0].id)
+                else:
+                    self.closing_vars.discard(targets[0].id)
             for t in targets:
                 if isinstance(t, ast.Subscript) and dotted(t.value)[-1] == '_channels':
                     self.emit('TCall KStoreChannel')
@@ -234,6 +244,10 @@ class Walker(object):
             self.emit('TEndFor')
         elif isinstance(s, ast.If):
             self.expr(s.test)
+            if isinstance(s.test, ast.UnaryOp) and isinstance(s.test.op, ast.Not) and \
+                    isinstance(s.test.operand, ast.Name) and s.test.operand.id in self.closing_vars:
+                # `if not <reading of is_closing>:` - the body runs only when nobody else was closing
+                self.emit('TCall KUnlessClosing')
             self.emit('TIf')
             self.block(s.body)
             if s.orelse:
